@@ -51,6 +51,7 @@ theorem C01_gen_prepareHeader_refuses : VolFile_PrepareHeader_guards_translated 
     repeat rw [and_mask64 _ (by omega)]
     -- no-wrap facts about the model-side quantities (omega's elimination is inexact on `14 * n` otherwise)
     have e1 : ((n : Int) * 14) / 18446744073709551616 = 0 := by omega
+    have e1' : (14 * (n : Int)) / 18446744073709551616 = 0 := by omega
     have e2 : ((po + ps + 11 : Nat) : Int) / 18446744073709551616 = 0 := by omega
     omega
 
